@@ -7,6 +7,7 @@ import (
 	"go/token"
 	"go/types"
 	"sort"
+	"strconv"
 	"strings"
 
 	"golang.org/x/tools/go/ssa"
@@ -1463,4 +1464,226 @@ func rootErr(v ssa.Value) ssa.Value {
 		v = ops[0]
 	}
 	return v
+}
+
+// unescapeTable (R-TABLES, codec): the decoder's string unquoting maps the single-character
+// escapes as RFC 8259 §7 says — \" \\ \/ to themselves, \b \f \n \r \t to 08 0C 0A 0D 09 —
+// whether it is written as a switch with one constant store per case or as a look-up in a
+// constant byte table. (The inherited code also takes \' for an apostrophe; the scanner in
+// front of it never lets that through, so it is tolerated here and nothing else is.)
+func (b *Body) unescapeTable(l *Ledger) {
+	if b.Codec == nil {
+		return
+	}
+	fn := fnOf(b.Codec, "unquoteBytes")
+	key := "unquoteBytes: the single-character escapes decode to the bytes RFC 8259 names"
+	if fn == nil || len(fn.Params) == 0 {
+		l.add("R-TABLES", "codec", key, "", Undecided, "unquoteBytes not found", false)
+		return
+	}
+	src := ssa.Value(fn.Params[0])
+	fromSrc := taintClosure(fn, []ssa.Value{src}, nil)
+	// byte loads from the input, and stores of one byte into a slice made here
+	var loads []*ssa.UnOp
+	var stores []*ssa.Store
+	allInstrs(fn, func(i ssa.Instruction) {
+		switch x := i.(type) {
+		case *ssa.UnOp:
+			if ia, ok := x.X.(*ssa.IndexAddr); ok && x.Op == token.MUL && (ia.X == src || fromSrc[ia.X]) && isByteSlice(ia.X.Type()) {
+				loads = append(loads, x)
+			}
+		case *ssa.Store:
+			if ia, ok := x.Addr.(*ssa.IndexAddr); ok && isByteSlice(ia.X.Type()) {
+				stores = append(stores, x)
+			}
+		}
+	})
+	byteTables := map[*ssa.Global]*[256]int64{}
+	tableOf := func(g *ssa.Global) *[256]int64 {
+		if t, ok := byteTables[g]; ok {
+			return t
+		}
+		var t [256]int64
+		ok := false
+		if init := g.Pkg.Func("init"); init != nil {
+			ok = true
+			allInstrs(init, func(i ssa.Instruction) {
+				st, isSt := i.(*ssa.Store)
+				if !isSt {
+					return
+				}
+				ia, isIA := st.Addr.(*ssa.IndexAddr)
+				if !isIA || ia.X != ssa.Value(g) {
+					return
+				}
+				idx, okI := intConst(ia.Index)
+				v, okV := intConst(st.Val)
+				if !okI || !okV || idx < 0 || idx > 255 {
+					ok = false
+					return
+				}
+				t[idx] = v
+			})
+		}
+		if !ok {
+			byteTables[g] = nil
+			return nil
+		}
+		byteTables[g] = &t
+		return &t
+	}
+	// the escape byte: the load under which constant stores are selected
+	want := map[int]int64{'"': '"', '\\': '\\', '/': '/', 'b': 8, 'f': 12, 'n': 10, 'r': 13, 't': 9}
+	var best map[int]int64
+	bestWhy := ""
+	bestConst := 0
+	for _, ld := range loads {
+		got := map[int]int64{}
+		sawConst := false
+		bad := ""
+		for _, st := range stores {
+			set, err := b.reachSet(fn, ld, map[ssa.Value]bool{}, nil, st)
+			if err != "" {
+				continue
+			}
+			full := true
+			any := false
+			for c := 0; c < 256; c++ {
+				if set.has(c) {
+					any = true
+				} else {
+					full = false
+				}
+			}
+			if !any || full {
+				continue // not selected by this byte
+			}
+			for c := 0; c < 256; c++ {
+				if !set.has(c) {
+					continue
+				}
+				var v int64 = -1
+				val := unwrapConv(st.Val)
+				if k, ok := intConst(val); ok {
+					v = k
+					sawConst = true
+				} else if u, ok := val.(*ssa.UnOp); ok && u.Op == token.MUL {
+					if ia, ok := u.X.(*ssa.IndexAddr); ok {
+						if ia0, ok0 := ld.X.(*ssa.IndexAddr); ok0 && ia.X == ia0.X && ia.Index == ia0.Index {
+							v = int64(c) // the escape byte itself
+						} else if g, isG := ia.X.(*ssa.Global); isG && (unwrapConv(ia.Index) == ssa.Value(ld)) {
+							if t := tableOf(g); t != nil {
+								v = t[c]
+								sawConst = true
+							}
+						}
+					}
+				} else if val == ssa.Value(ld) {
+					v = int64(c)
+				} else if u2, ok := val.(*ssa.UnOp); ok && u2.Op == token.MUL {
+					_ = u2
+				}
+				// a value read from a table into a variable first (v := tbl[c]; if v != 0 { b[w] = v })
+				if v < 0 {
+					if u, ok := val.(*ssa.UnOp); ok && u.Op == token.MUL {
+						if ia, ok := u.X.(*ssa.IndexAddr); ok {
+							if g, isG := ia.X.(*ssa.Global); isG {
+								if t := tableOf(g); t != nil {
+									v = t[c]
+									sawConst = true
+								}
+							}
+						}
+					}
+				}
+				if v < 0 {
+					bad = "the byte stored at " + b.posOf(st) + " for the escape character " + strconv.QuoteRune(rune(c)) + " is not a constant, a table entry or the character itself"
+					continue
+				}
+				if old, dup := got[c]; dup && old != v {
+					bad = fmt.Sprintf("two different bytes are stored for the escape character %q", rune(c))
+				}
+				got[c] = v
+			}
+		}
+		// the escape byte is the one whose values select the constant stores one by one: a byte
+		// under which two constants land on the same value (the backslash test of the outer
+		// loop) is not it
+		conflict := strings.HasPrefix(bad, "two different bytes")
+		nConst := 0
+		for c, v := range got {
+			if v != int64(c) {
+				nConst++
+			}
+		}
+		if sawConst && !conflict && nConst > bestConst {
+			best, bestWhy, bestConst = got, bad, nConst
+		}
+	}
+	if best == nil {
+		l.add("R-TABLES", "codec", key, b.rel(fn.Pos()), Undecided, "no byte of the input selects constant stores: the escape dispatch was not recognised", true)
+		return
+	}
+	bad := bestWhy
+	for c, v := range want {
+		if g, ok := best[c]; !ok {
+			bad = fmt.Sprintf("the escape \\%c is not decoded", rune(c))
+		} else if g != v {
+			bad = fmt.Sprintf("the escape \\%c decodes to byte 0x%02x, RFC 8259 says 0x%02x", rune(c), g, v)
+		}
+	}
+	for c, v := range best {
+		if _, ok := want[c]; ok || c == '\'' || c == 'u' {
+			continue
+		}
+		if v != 0 {
+			bad = fmt.Sprintf("\\%c is decoded (to 0x%02x) although JSON has no such escape", rune(c), v)
+		}
+	}
+	if bad != "" {
+		l.add("R-TABLES", "codec", key, b.rel(fn.Pos()), Violated, bad, true)
+	} else {
+		l.add("R-TABLES", "codec", key, b.rel(fn.Pos()), Discharged, fmt.Sprintf("%d escape characters mapped: \" \\ / to themselves, b f n r t to 08 0C 0A 0D 09", len(want)), true)
+	}
+}
+
+// noUnsafe (R-EFFECT): neither the library nor the codec imports package unsafe. A string made
+// over a byte slice without copying (`*(*string)(unsafe.Pointer(&b))`) is a view of memory
+// that is written again later — the decoder's input buffer, a pooled buffer — so a value
+// handed out changes after the fact; Go's own aliasing guarantees, which every other
+// obligation of this rule relies on, end where unsafe begins.
+func (b *Body) noUnsafe(l *Ledger) {
+	for _, pkg := range []*ssa.Package{b.Lib, b.Codec} {
+		if pkg == nil {
+			continue
+		}
+		lab := b.Name
+		if pkg == b.Codec {
+			lab = "codec"
+		}
+		key := "package " + pkg.Pkg.Name() + " does not import unsafe"
+		bad := ""
+		for _, imp := range pkg.Pkg.Imports() {
+			if imp.Path() == "unsafe" {
+				bad = "package unsafe is imported"
+			}
+		}
+		for _, fn := range b.srcFuncs(pkg) {
+			allInstrs(fn, func(i ssa.Instruction) {
+				if cv, ok := i.(*ssa.Convert); ok {
+					if bt, isB := cv.Type().Underlying().(*types.Basic); isB && bt.Kind() == types.UnsafePointer {
+						bad = "conversion to unsafe.Pointer in " + fname(fn) + " at " + b.posOf(i)
+					}
+					if bt, isB := cv.X.Type().Underlying().(*types.Basic); isB && bt.Kind() == types.UnsafePointer {
+						bad = "conversion from unsafe.Pointer in " + fname(fn) + " at " + b.posOf(i)
+					}
+				}
+			})
+		}
+		if bad != "" {
+			l.add("R-EFFECT", lab, key, "", Violated, bad+": memory is reinterpreted without a copy, so a value that was handed out can change when the bytes behind it are written again", true)
+		} else {
+			l.add("R-EFFECT", lab, key, "", Discharged, "no import of unsafe and no unsafe.Pointer conversion", true)
+		}
+	}
 }
